@@ -75,7 +75,78 @@ func eqSets(a, b []string) (bool, string) {
 }
 
 // groundJob runs the named ground job and returns its obligations.
+// groundAxioms evaluates the ground axioms of specs/ground_axioms.json that the
+// property uses on the real functions (one in-package test per package).
+func groundAxioms(repo, verifDir, prop string) ([]*Obligation, []string) {
+	type ax struct {
+		Name    string   `json:"name"`
+		Props   []string `json:"props"`
+		Pkg     string   `json:"pkg"`
+		Imports []string `json:"imports"`
+		Go      string   `json:"go"`
+		Src     string   `json:"src"`
+	}
+	var axs []ax
+	b, err := os.ReadFile(filepath.Join(verifDir, "specs", "ground_axioms.json"))
+	if err != nil {
+		return nil, []string{err.Error()}
+	}
+	if err := json.Unmarshal(b, &axs); err != nil {
+		return nil, []string{"ground_axioms.json: " + err.Error()}
+	}
+	byPkg := map[string][]ax{}
+	for _, a := range axs {
+		for _, p := range a.Props {
+			if p == prop {
+				byPkg[a.Pkg] = append(byPkg[a.Pkg], a)
+			}
+		}
+	}
+	var obls []*Obligation
+	var errs []string
+	for pkg, as := range byPkg {
+		imps := map[string]bool{"fmt": true, "testing": true}
+		var body strings.Builder
+		for _, a := range as {
+			for _, i := range a.Imports {
+				imps[i] = true
+			}
+			fmt.Fprintf(&body, "\tfmt.Println(\"VERIF-AX\", %q, %s)\n", a.Name, a.Go)
+		}
+		var il []string
+		for i := range imps {
+			il = append(il, fmt.Sprintf("\t%q", i))
+		}
+		sort.Strings(il)
+		pkgName := "bluemonday"
+		if pkg != "." {
+			pkgName = filepath.Base(pkg)
+		}
+		src := fmt.Sprintf("package %s\n\nimport (\n%s\n)\n\nfunc TestVerifGroundAxioms(t *testing.T) {\n%s}\n", pkgName, strings.Join(il, "\n"), body.String())
+		out, _ := goTestOverlay(repo, pkg, filepath.Join(verifDir, "work", "ground"), "zz_verif_axioms_test.go", src, "^TestVerifGroundAxioms$", nil)
+		got := map[string]string{}
+		for _, l := range strings.Split(out, "\n") {
+			f := strings.Fields(l)
+			if len(f) == 3 && f[0] == "VERIF-AX" {
+				got[f[1]] = f[2]
+			}
+		}
+		for _, a := range as {
+			v, ok := got[a.Name]
+			if !ok {
+				errs = append(errs, fmt.Sprintf("ground axiom %s: the real code could not be run:\n%s", a.Name, out))
+				continue
+			}
+			obls = append(obls, groundObl(prop, "axiom("+a.Name+")", a.Src+"; evaluated on the real code: "+a.Go, v == "true"))
+		}
+	}
+	return obls, errs
+}
+
 func groundJob(job, repo, verifDir, prop string) ([]*Obligation, []string) {
+	if job == "axioms" {
+		return groundAxioms(repo, verifDir, prop)
+	}
 	if job != "shipped_policies" {
 		return nil, []string{"unknown ground job " + job}
 	}
